@@ -959,6 +959,54 @@ def rule_basis_restored(ctx: Ctx) -> None:
         raise AnalysisError("measure.basis-restored: no measure_* function found")
 
 
+# --------------------------------------------------------------------------- size.stale-per-branch
+
+# tableau functions that change the number of qubits of the tableau they are given *in place* (confirmed by reading clifford.py: they
+# shrink / expand the argument and return it); a mixture method that calls one per branch changes the size the mixture reports
+RESIZE_IN_PLACE = {"partial_trace", "remove_qubit", "insert_qubit", "add_qubit"}
+
+
+def rule_size_stale_per_branch(ctx: Ctx) -> None:
+    """size.stale-per-branch: MixedStabilizer.n_qubits reads the size of the *first* branch's tableau.  A method that walks the branches
+    and resizes each tableau in place (partial_trace, remove_qubit, insert_qubit, add_qubit) must read sizes before the walk: an
+    expression evaluated per branch that reads `self.n_qubits` sees the reduced size from the second branch on."""
+    from . import gatesum
+    repo = ctx.repo
+    m = repo.module(gatesum.SSTATE)
+    cm = repo.module(CLIFF)
+    for f_ in RESIZE_IN_PLACE:
+        if not isinstance(cm.find(f_), ast.FunctionDef):
+            raise AnalysisError(f"size.stale-per-branch: clifford.{f_} no longer exists (table RESIZE_IN_PLACE is out of date)")
+    ci = repo.cls("MixedStabilizer", gatesum.SSTATE)
+    n = 0
+    for name, fn in ci.methods().items():
+        walks = []
+        for x in ast.walk(fn):
+            if isinstance(x, (ast.ListComp, ast.GeneratorExp)) and any(norm(g.iter) in ("self._mixture", "self.mixture") for g in x.generators):
+                walks.append((x, [x.elt]))
+            elif isinstance(x, ast.For) and norm(x.iter) in ("self._mixture", "self.mixture", "enumerate(self._mixture)", "enumerate(self.mixture)"):
+                walks.append((x, x.body))
+        for w, parts in walks:
+            resize = [c for p_ in parts for c in ast.walk(p_) if isinstance(c, ast.Call) and (call_attr(c) or getattr(c.func, "id", "")) in RESIZE_IN_PLACE]
+            if not resize:
+                continue
+            n += 1
+            ctx.touch(m, fn)
+            stale = [a for p_ in parts for a in ast.walk(p_) if isinstance(a, ast.Attribute) and norm(a) == "self.n_qubits"]
+            stale += [a for p_ in parts for a in ast.walk(p_) if isinstance(a, ast.Subscript) and norm(a).startswith(("self._mixture[0]", "self.mixture[0]"))]
+            if stale:
+                ctx.fail("size.stale-per-branch", m, stale[0],
+                         f"MixedStabilizer.{name} evaluates `{short(parent(stale[0]) if parent(stale[0]) is not None else stale[0], 70)}` once per branch while "
+                         f"`{call_attr(resize[0]) or resize[0].func.id}` resizes each branch's tableau in place: `self.n_qubits` is the size of the first branch, which "
+                         f"has already been reduced when the second branch is processed, so later branches lose further qubits "
+                         f"(two 4-qubit branches, trace_out_qubits([0]): sizes 3 and 2)", func=f"MixedStabilizer.{name}",
+                         construct=f"MixedStabilizer.{name}: self.n_qubits read per branch during an in-place resize")
+            else:
+                ctx.ok("size.stale-per-branch", m, w, what=f"MixedStabilizer.{name}: sizes read before the walk over the branches")
+    if n == 0:
+        raise AnalysisError("size.stale-per-branch: no per-branch resize found in MixedStabilizer")
+
+
 # --------------------------------------------------------------------------- reset.basis
 
 
